@@ -260,16 +260,22 @@ _postscriptFontNameAllowed = {chr(i) for i in range(33, 127)}
 def normalizeStringForPostscript(s, allowSpaces=True):
     normalized = []
     for c in s:
-        if c == " " and not allowSpaces:
-            continue
-        if c in _postscriptFontNameExceptions:
-            continue
         if c not in _postscriptFontNameAllowed:
             # Use compatibility decomposed form, to keep parts in ascii
             c = unicodedata.normalize("NFKD", c)
             if not set(c) < _postscriptFontNameAllowed:
                 c = c.encode("ascii", errors="replace").decode()
-        normalized.append(c)
+        # filter the *normalized* characters: the decomposition can itself yield
+        # spaces, excluded punctuation (e.g. U+FF08 -> "(") or control characters
+        for ch in c:
+            if ch == " ":
+                if allowSpaces:
+                    normalized.append(ch)
+            elif (
+                ch in _postscriptFontNameAllowed
+                and ch not in _postscriptFontNameExceptions
+            ):
+                normalized.append(ch)
     return "".join(normalized)
 
 
